@@ -234,6 +234,12 @@ def run_case(case):
         if case["cseg"] and dt.name in ("uint32",):
             tyenc += ["--encoding", "compressed_segmentation"]
         store = (["--flat"] if case["flat"] else []) + (["--no-gzip"] if case["nogzip"] else [])
+        # the first pass of every data-writing step stores with the fastest gzip level; a
+        # repeated step runs with the default level, so it overwrites every file with a
+        # (usually) SHORTER one - the decoded contents must be the same
+        store1 = store + (["--compresslevel", "1"] if not case["nogzip"]
+                          and case["vseed"] % 2 else [])
+        obs["first_pass_with_other_gzip_level"] = int(store1 != store)
         down = [] if case["method"] == "auto" else ["--downscaling-method", case["method"]]
         if case["outside"] is not None and case["method"] in ("average", "auto") \
                 and not case["seg"]:
@@ -251,7 +257,7 @@ def run_case(case):
                f"{tyenc + store + down + scaling}")
         A, B = os.path.join(top, "A"), os.path.join(top, "B")
         if route == "pair":
-            run("volume_to_precomputed_pyramid", *tyenc, *store, *down, *scaling, fn, A)
+            run("volume_to_precomputed_pyramid", *tyenc, *store1, *down, *scaling, fn, A)
             run("volume_to_precomputed", "--generate-info", *scaling, fn, B, expect_ok=False)
             for f_ in ("info_fullres.json", "transform.json"):
                 try:
@@ -261,7 +267,7 @@ def run_case(case):
                     v.append({"kind": "generated-file-missing-or-invalid",
                               "detail": f"{ctx}: {f_}: {type(exc).__name__}"})
             run("generate_scales_info", *tyenc, os.path.join(B, "info_fullres.json"), B)
-            run("volume_to_precomputed", *store, *scaling, fn, B)
+            run("volume_to_precomputed", *store1, *scaling, fn, B)
         elif route == "slices":
             # RAS-oriented stack of PNG/TIFF slices, uint8/uint16 only
             if dt.kind == "f" or dt == np.int16:
@@ -293,7 +299,7 @@ def run_case(case):
             with open(os.path.join(B, "info_fullres.json"), "w") as fh:
                 json.dump(fullres, fh)
             run("generate_scales_info", os.path.join(B, "info_fullres.json"), B)
-            run("slices_to_precomputed", *store, "--input-orientation", code, sd, B)
+            run("slices_to_precomputed", *store1, "--input-orientation", code, sd, B)
         else:   # sharded step-by-step route (isotropic voxels -> cubic chunks)
             aff = np.diag([1., 1., 1., 1.])
             nibabel.save(nibabel.Nifti1Image(vol, aff), fn)
@@ -319,7 +325,7 @@ def run_case(case):
             if not np.array_equal(got0, want0.astype(got0.dtype)):
                 v.append({"kind": "full-resolution-scale-differs-from-input",
                           "detail": f"{ctx}: {int((got0 != want0).sum())} voxels differ"})
-        run("compute_scales", *store, *down, B)
+        run("compute_scales", *store1, *down, B)
         if v:
             return {"violations": v[:3], "obs": obs}
         b, infoB, problems = _read(np, B)
@@ -362,7 +368,7 @@ def run_case(case):
                 Cdir = None      # plain destination info lacks the source's chunk layout
             elif [s["chunk_sizes"] for s in infoC["scales"]] == \
                     [s["chunk_sizes"] for s in infoB["scales"]]:
-                run("convert_chunks", *store, B, Cdir)
+                run("convert_chunks", *store1, B, Cdir)
                 if not v:
                     cdat, infoC, problems = _read(np, Cdir)
                     obs["completeness_audits"] += 1
